@@ -89,7 +89,7 @@ fn draw_names(rng: &mut Rng, n: usize, prefix_names: bool, long_names: bool) -> 
 
 const DIRS_PLAIN: &[&str] = &["", "", "", "sub/", "sub/deep/", "api/", "api/v1/", "m/n/o/"];
 const DIRS_DOTTED: &[&str] = &["a.b/", "x.ts/", "v1.2/c/", ".hidden/", "sub/./", "api/../api/"];
-const DIRS_ESCAPE: &[&str] = &["../", "../out2/", "sub/../../side/", "../../up2/"];
+const DIRS_ESCAPE: &[&str] = &["../", "../out2/", "sub/../../side/", "../../up2/", "/abs2/ts/"];
 const SHARED_FILES: &[&str] = &["shared.ts", "types.ts", "common/all.ts", "sub/group.ts", "mod.d.ts"];
 
 fn draw_dir(rng: &mut Rng, sw: &Swarm) -> String {
